@@ -87,6 +87,104 @@ def decorate(rng, g):
     return g
 
 
+LONG_NAMES = ['optional_return_annotation', 'statement_label_identifier', 'qualified_type_parameter_list', 'declaration_specifier_sequence',
+              'trailing_comment_or_annotation', 'x']
+CTRL_PATTERNS = ['[a\t]+', 'a\tb', '[\t ]*b', 'a\x0bb?', '[\x0c\t]?x', 'b\t?']     # literal control characters inside /patterns/
+G.PAT_SAMPLES.update({'[a\t]+': ['a', 'a\ta', '\t'], 'a\tb': ['a\tb'], '[\t ]*b': ['b', '\tb', ' \tb'], 'a\x0bb?': ['a\x0b', 'a\x0bb'],
+                      '[\x0c\t]?x': ['x', '\tx', '\x0cx'], 'b\t?': ['b', 'b\t']})
+
+
+def map_exp(e, f):
+    """rebuild e bottom-up, applying f to every node"""
+    k = E.kind(e)
+    if k in ('seq', 'choice'):
+        e = (k, [map_exp(x, f) for x in e[1]])
+    elif k in ('group', 'skipgroup', 'opt', 'skipto'):
+        e = (k, map_exp(e[1], f))
+    elif k == 'rep':
+        e = ('rep', e[1], None if e[2] is None else map_exp(e[2], f), e[3], map_exp(e[4], f))
+    elif k == 'look':
+        e = ('look', e[1], map_exp(e[2], f))
+    elif k == 'named':
+        e = ('named', e[1], e[2], map_exp(e[3], f))
+    elif k == 'over':
+        e = ('over', e[1], map_exp(e[2], f))
+    return f(e)
+
+
+def widen(rng, g):
+    """families the plain generator does not reach: long names and list names (the folded multi-line define() declaration), cuts in
+    every position (choices run through ChoiceContext in generated code), literal control characters in patterns / @@whitespace"""
+    fam = rng.choice(['long-names', 'cuts', 'ctrl-patterns', 'plain', 'plain'])
+    g = dict(g)
+    if fam == 'long-names':
+        ren = {}
+
+        def f(e):
+            if E.kind(e) == 'named':
+                nn = ren.setdefault(e[2], rng.choice(LONG_NAMES) + (str(len(ren)) if rng.random() < 0.5 else ''))
+                return ('named', e[1] or rng.random() < 0.4, nn, e[3])
+            if E.kind(e) in ('tok', 'pat') and rng.random() < 0.25:
+                return ('named', rng.random() < 0.5, ren.setdefault('$' + str(len(ren)), rng.choice(LONG_NAMES) + str(len(ren))), e)
+            return e
+        g['rules'] = [(n, d, map_exp(e, f)) for n, d, e in g['rules']]
+    elif fam == 'cuts':
+        from props.c05 import place_cuts
+        g['rules'] = [(n, d, place_cuts(rng, e, 0.3)) for n, d, e in g['rules']]
+    elif fam == 'ctrl-patterns':
+        def f(e):
+            if E.kind(e) in ('pat', 'tok') and rng.random() < 0.4:
+                return ('pat', rng.choice(CTRL_PATTERNS))
+            return e
+        g['rules'] = [(n, d, map_exp(e, f)) for n, d, e in g['rules']]
+        g['directives'] = dict(g.get('directives', {}))
+        r = rng.random()
+        if r < 0.3:
+            g['directives']['whitespace'] = '[\t ]+'
+        elif r < 0.45:
+            g['directives']['whitespace'] = '[ \t\x0b]*'
+    return g, fam
+
+
+def norm_cfg(v):
+    """regex settings are printed into generated code with control characters escaped (\\t for TAB): equal as regexes"""
+    if isinstance(v, str):
+        return v.replace('\t', '\\t').replace('\x0b', '\\v').replace('\x0c', '\\f').replace('\n', '\\n').replace('\r', '\\r')
+    return v
+
+
+def cut_scope_grammar(rng):
+    """an outer choice whose alternatives share first tokens; the earlier alternative holds an inner construct (group, optional, closure,
+    nested choice) with cuts in its options - the last one included - and then fails, so whether the cut stays inside decides the parse"""
+    toks = ['a', 'b', 'c']
+
+    def option(last):
+        t = rng.choice(toks)
+        r = rng.random()
+        if r < (0.6 if last else 0.35):
+            return ('seq', [('tok', t), 'cut'])
+        if r < 0.75:
+            return ('seq', [('tok', t), 'cut', ('tok', rng.choice(toks))])
+        return ('tok', t)
+    n = rng.randint(2, 3)
+    inner = ('choice', [option(i == n - 1) for i in range(n)])
+    wrap = rng.choice(['group', 'group', 'opt', 'rep', 'named', 'skipgroup'])
+    inner_e = {'group': ('group', inner), 'opt': ('opt', inner), 'rep': ('rep', False, None, False, inner),
+               'named': ('named', False, 'n', ('group', inner)), 'skipgroup': ('skipgroup', inner)}[wrap]
+    alt1 = ('seq', [inner_e, ('tok', 'x'), 'eof'])
+    alts = [alt1]
+    for _ in range(rng.randint(1, 2)):
+        alts.append(('seq', [('tok', rng.choice(toks)), ('tok', rng.choice(['y', 'x', 'a'])), 'eof']))
+    if rng.random() < 0.3:
+        alts.append(('seq', [('rep', False, None, False, ('tok', rng.choice(toks))), 'eof']))
+    g = {'rules': [('start', [], ('choice', alts))], 'directives': {}, 'keywords': []}
+    if rng.random() < 0.4:      # the same through a rule call
+        g['rules'] = [('start', [], ('choice', [('seq', [('call', 'inner'), ('tok', 'x'), 'eof'])] + alts[1:])), ('inner', [], inner_e)]
+    words = toks + ['x', 'y']
+    texts = {' '.join(rng.choice(words) for _ in range(rng.randint(1, 3))) for _ in range(14)}
+    return g, sorted(texts)
+
+
 def shard(col, shard_i, ngrammars, ninputs):
     mr = ModelRun('Engine')
     rng = col.rng
@@ -95,10 +193,17 @@ def shard(col, shard_i, ngrammars, ninputs):
         if gi % 4 == 3:
             g, _k = G.lrec_grammar(rng)
             texts = G.lrec_inputs(rng, ninputs, g=g)
+        elif gi % 8 == 5:
+            g, texts = cut_scope_grammar(rng)
+            col.count('family.cut-scope')
         else:
             g = G.gen_grammar(rng, G.GenCfg(names=0.2, overrides=0.06, skipto=0.04), depth=rng.choice([2, 3]))
             g = decorate(rng, g)
+            g, fam = widen(rng, g)
+            col.count('family.' + fam)
             texts = [t[:40] for t in G.gen_inputs(rng, g, ninputs)]
+            if fam == 'ctrl-patterns':
+                texts += [t.replace(' ', rng.choice(['\t', ' \t', ' ']), 2) for t in texts[1:4]]
         cls = R.generated_parser(g)
         fp_g = E.grammar_text(g)
         if isinstance(cls, tuple):
@@ -167,7 +272,7 @@ def shard(col, shard_i, ngrammars, ninputs):
                 gcfg = cls().self_config.override(**c.settings.kwargs())
                 mcfg = R.compile_grammar(c.g).optimized().new_parse_config(**c.settings.kwargs())
                 cfgdiff = sorted(f for f in ('parseinfo', 'ignorecase', 'nameguard', 'whitespace', 'namechars', 'comments', 'eol_comments',
-                                             'left_recursion', 'memoization') if getattr(gcfg, f) != getattr(mcfg, f) and (getattr(gcfg, f) or getattr(mcfg, f)))
+                                             'left_recursion', 'memoization') if norm_cfg(getattr(gcfg, f)) != norm_cfg(getattr(mcfg, f)) and (getattr(gcfg, f) or getattr(mcfg, f)))
             except Exception:
                 pass
             from tatsu.util import safe_name
@@ -204,9 +309,64 @@ def replay_witness(chk):
                    str(chk.extra['refuted_witness_replay']))
 
 
+PROBES = {
+    # constructs outside the generator's IR, each compared directly: model.parse vs the generated parser
+    'verbose-pattern-with-newlines': ("start = /(?x)\nfoo\nbar\n/ $ ;", ['foobar', 'foo', '\nfoo\nbar\n'], None),
+    'verbose-pattern-one-line': ("start = /(?x) foo  bar / $ ;", ['foobar', 'foo bar'], None),
+    'rule-params': ("start(A, 7) = 'x' ;", ['x'], 'args'),
+    'rule-kwparams': ("start(A, k=1) = 'x' ;", ['x'], 'args'),
+    'rule-param-with-base': ("start::A::B = 'x' ;", ['x'], 'args'),
+    'based-rule': ("start = b ;\na = 'x' ;\nb < a = 'y' ;", ['x y', 'y', 'x'], None),
+    'rule-include': ("a = 'x' 'y' ;\nstart = >a 'z' ;", ['x y z', 'z'], None),
+    'gather-join': ("start = ','.{'a'}+ ';'%{'b'} $ ;", ['a,a;b;b', 'a , a b ; b', 'a,'], None),
+    'alert': ("start = 'a' ^`warn` 'b' $ ;", ['a b', 'a'], None),
+    'unicode-names': ("start = größe:'a' ключ:'b' ;", ['a b'], None),
+    'eol': ("start = 'a' $-> 'b' ;", ['a\nb', 'a b'], None),
+}
+
+
+def shard_probes(col, shard_i):
+    import tatsu
+
+    class Args:
+        def start(self, ast, *a, **k):
+            return ('$tag', 'start', [ast, list(a), sorted((x, y) for x, y in k.items() if x != 'parseinfo')])
+
+    for name, (g, texts, sem) in PROBES.items():
+        try:
+            m = tatsu.compile(g)
+        except Exception as e:  # noqa
+            col.count('probe.grammar-rejected.' + name)
+            continue
+        try:
+            ns: dict = {}
+            exec(tatsu.to_python_sourcecode(g, name='P'), ns)
+            cls = ns['PParser']
+        except Exception as e:  # noqa
+            col.case(['probe', name], nontrivial=True)
+            col.violation(f'gen-vs-model:probe:{name}:does-not-generate', f'probe grammar compiles but its generated parser does not load: {type(e).__name__}: {e}'[:300],
+                          {'oracle': 'probe', 'grammar': g})
+            continue
+        for t in texts:
+            outs = []
+            for run in (lambda: m.parse(t, start='start', semantics=Args() if sem else None), lambda: cls().parse(t, start='start', semantics=Args() if sem else None)):
+                try:
+                    outs.append(('ok', E.canon(run())))
+                except tatsu.exceptions.FailedParse:
+                    outs.append(('fail', None))
+                except Exception as e:  # noqa
+                    outs.append(('exc', type(e).__name__))
+            col.case(['probe', name, t], nontrivial=True)
+            col.count('probe.compared')
+            if outs[0] != outs[1]:
+                col.violation(f'gen-vs-model:probe:{name}', f'the generated parser and model.parse disagree on probe {name}',
+                              {'oracle': 'generated parser vs model.parse (probe)', 'grammar': g, 'text': t, 'model.parse': outs[0], 'generated': outs[1]})
+
+
 def main():
     chk = Check(PID)
     chk.rule = ('random grammars over the core language with directives, @nomemo, upper-case and keyword-like rule names (class, def, None, ...), '
+                'families: long / list names, cuts after every kind of element, literal control characters in patterns and @@whitespace; '
                 'plus left-recursive templates x sentences/mutants x parse-time settings {defaults, ignorecase, nameguard off, whitespace override, '
                 'parseinfo} x semantics {none, tagging, identity}; for each: generated source must load (G0), generated parser vs Gen.v (G2), '
                 'generated parser vs model.parse (the property), with divergences classified by the Coq models.')
@@ -219,9 +379,10 @@ def main():
     if ok:
         replay_witness(chk)
         if chk.quick:
-            vlib.run_sharded(chk, shard, 14, extra=(20, 8))
+            vlib.run_sharded(chk, shard, 14, extra=(48, 10))
         else:
             vlib.run_sharded(chk, shard, 28, extra=(50, 10))
+        vlib.run_sharded(chk, shard_probes, 1, procs=1)
         chk.obligation('G0: generated source is valid, loadable Python', 'correspondence',
                        not any(v['signature'].startswith('G0') for v in chk.violations))
         chk.obligation('G2: generated parser vs the model of generated code', 'correspondence',
